@@ -4,6 +4,7 @@
     [compute_orthonormal_basis] and [_center_xi_realizations] by python-ast, DAG wiring by introspection. *)
 From Coq Require Import String Reals List.
 From Leaspy Require Import Base.RAux Formulas.Ortho Formulas.OrthoProofs Formulas.Gauge Formulas.GaugeProofs Formulas.GaugeTie.
+From Leaspy Require Import Formulas.OrthoBranchProofs Formulas.OrthoBranchTie.
 From LeaspyGen Require Import GenC10.
 Import ListNotations.
 Local Open Scope R_scope.
@@ -189,3 +190,80 @@ Theorem C10_tie_wiring : forall B betas Srcs : matrix,
   gen_joint_space_shifts Srcs B = space_shifts Srcs B /\ gen_shared_space_shifts Srcs B = space_shifts Srcs B.
 Proof. exact tie_wiring. Qed.
 Print Assumptions C10_tie_wiring.
+
+(** ---- extension: EVERY branch of compute_orthonormal_basis (scalar / diagonal / full metric, any strip_col) ----
+    [gen_ortho_basis_{0,1,2}d strip_col d G] are regenerated from utils/linalg.py, one per branch of the chain on
+    [len(G_shape)], strip_col kept as a parameter.  [inner_kd G x y] is the inner product (1) of the docstring,
+    xᵀ G y, for G a positive scalar / a positive diagonal / a full matrix. *)
+
+(** Tie: the three generated functions and their guards are the models of Ortho.v; the function the models call
+    (1-D metric, default strip_col) is the 1-D branch at [gen_ortho_strip_default]. *)
+Theorem C10_tie_ortho_branches : forall (j : nat) (d : list R) (g : R) (G1 : list R) (G2 : matrix),
+  gen_ortho_basis_0d j d g = ortho_basis_0d j d g /\ gen_ortho_basis_1d j d G1 = ortho_basis_1d j d G1 /\
+  gen_ortho_basis_2d j d G2 = ortho_basis_2d j d G2 /\
+  (gen_ortho_pre_0d j d g <-> ortho_pre_0d j d g) /\ (gen_ortho_pre_1d j d G1 <-> ortho_pre_1d j d G1) /\
+  (gen_ortho_pre_2d j d G2 <-> ortho_pre_2d j d G2) /\
+  gen_ortho_basis d G1 = gen_ortho_basis_1d gen_ortho_strip_default d G1 /\
+  (gen_ortho_pre d G1 <-> gen_ortho_pre_1d gen_ortho_strip_default d G1).
+Proof. exact tie_branches. Qed.
+Print Assumptions C10_tie_ortho_branches.
+
+(** Every branch, every dimension, every strip_col accepted by the code: each returned column is orthogonal to the
+    direction d for the inner product of the branch, provided coordinate strip_col of G d is non-zero. *)
+Theorem C10_ortho_branches : forall (j : nat) (d : list R) (g : R) (G1 : list R) (G2 : matrix) (c : nat),
+  (S c < length d)%nat ->
+  (gen_ortho_pre_0d j d g -> nth j (vscale g d) 0 <> 0 -> inner_0d g (col c (gen_ortho_basis_0d j d g)) d = 0) /\
+  (gen_ortho_pre_1d j d G1 -> nth j (vmul G1 d) 0 <> 0 -> inner_1d G1 (col c (gen_ortho_basis_1d j d G1)) d = 0) /\
+  (gen_ortho_pre_2d j d G2 -> nth j (matvec G2 d) 0 <> 0 -> inner_2d G2 (col c (gen_ortho_basis_2d j d G2)) d = 0).
+Proof. exact gen_branches_orthogonal. Qed.
+Print Assumptions C10_ortho_branches.
+
+(** The proviso is needed in every branch (torch.sign(0) = 0): accepted inputs with a non-zero metric norm whose
+    kept column is not orthogonal to d (d = (1,0), strip_col = 1, identity metric as scalar / vector / matrix). *)
+Theorem C10_ortho_branches_zero_pivot_refuted :
+  (exists j d g c, gen_ortho_pre_0d j d g /\ inner_0d g d d <> 0 /\ (S c < length d)%nat /\
+     inner_0d g (col c (gen_ortho_basis_0d j d g)) d <> 0) /\
+  (exists j d G c, gen_ortho_pre_1d j d G /\ inner_1d G d d <> 0 /\ (S c < length d)%nat /\
+     inner_1d G (col c (gen_ortho_basis_1d j d G)) d <> 0) /\
+  (exists j d G c, gen_ortho_pre_2d j d G /\ inner_2d G d d <> 0 /\ (S c < length d)%nat /\
+     inner_2d G (col c (gen_ortho_basis_2d j d G)) d <> 0).
+Proof. exact gen_branches_zero_pivot_refuted. Qed.
+Print Assumptions C10_ortho_branches_zero_pivot_refuted.
+
+(** Orthonormality, for the inner product the code documents ("always orthonormal for the Euclidean canonical inner
+    product"): every branch, every dimension, every strip_col, every direction of non-zero metric norm dᵀ G d —
+    no condition on the pivot coordinate. *)
+Theorem C10_orthonormal_branches : forall (j : nat) (d : list R) (g : R) (G1 : list R) (G2 : matrix) (c c' : nat),
+  (S c < length d)%nat -> (S c' < length d)%nat ->
+  (gen_ortho_pre_0d j d g -> inner_0d g d d <> 0 ->
+     dot (col c (gen_ortho_basis_0d j d g)) (col c' (gen_ortho_basis_0d j d g)) = if Nat.eqb c c' then 1 else 0) /\
+  (gen_ortho_pre_1d j d G1 -> inner_1d G1 d d <> 0 ->
+     dot (col c (gen_ortho_basis_1d j d G1)) (col c' (gen_ortho_basis_1d j d G1)) = if Nat.eqb c c' then 1 else 0) /\
+  (gen_ortho_pre_2d j d G2 -> inner_2d G2 d d <> 0 ->
+     dot (col c (gen_ortho_basis_2d j d G2)) (col c' (gen_ortho_basis_2d j d G2)) = if Nat.eqb c c' then 1 else 0).
+Proof. exact gen_branches_orthonormal. Qed.
+Print Assumptions C10_orthonormal_branches.
+
+(** The basis the models use: orthonormal for every accepted metric and every direction that is not the zero vector. *)
+Theorem C10_orthonormal : forall (d G : list R) (c c' : nat),
+  gen_ortho_pre d G -> (exists i, nth i d 0 <> 0) -> (S c < length d)%nat -> (S c' < length d)%nat ->
+  dot (col c (gen_ortho_basis d G)) (col c' (gen_ortho_basis d G)) = if Nat.eqb c c' then 1 else 0.
+Proof. exact gen_default_orthonormal. Qed.
+Print Assumptions C10_orthonormal.
+
+(** ... and NOT orthonormal for the metric inner product (scalar metric 2: every column has metric norm² 2) — what
+    the docstring says ("we could do otherwise if we'd like a full orthonormal basis w.r.t. the non-Euclidean ..."). *)
+Theorem C10_orthonormal_metric_refuted :
+  exists j d g c, gen_ortho_pre_0d j d g /\ inner_0d g d d <> 0 /\ (S c < length d)%nat /\
+    inner_0d g (col c (gen_ortho_basis_0d j d g)) (col c (gen_ortho_basis_0d j d g)) <> 1.
+Proof. exact gen_metric_orthonormal_refuted. Qed.
+Print Assumptions C10_orthonormal_metric_refuted.
+
+(** Every branch is invariant under d -> c d, c > 0 (what makes log_v0 + m harmless whatever the metric's shape). *)
+Theorem C10_basis_collinear_branches : forall (c : R) (j : nat) (d : list R) (g : R) (G1 : list R) (G2 : matrix),
+  0 < c ->
+  gen_ortho_basis_0d j (vscale c d) g = gen_ortho_basis_0d j d g /\
+  gen_ortho_basis_1d j (vscale c d) G1 = gen_ortho_basis_1d j d G1 /\
+  gen_ortho_basis_2d j (vscale c d) G2 = gen_ortho_basis_2d j d G2.
+Proof. exact gen_branches_collinear. Qed.
+Print Assumptions C10_basis_collinear_branches.
